@@ -148,15 +148,29 @@ fn run_resource(sx: &sexpr::Sx) -> Vec<String> {
         // `(resource (STEPS) self)`: the fetch future itself moves the dependency on (to value + 1) when the value it received ends
         // in 7, in its last poll, before returning that value (e.g. clamping a page number to the page count it just learnt)
         let selfw = sx.list().len() > 2 && sx.list()[2].atom() == "self";
+        // `(resource (STEPS) clamp)`: a helper effect, created before the resource, clamps the dependency to 50 (a page number clamped
+        // to the page count): a write above 50 is followed, in the same propagation, by the helper's write of 50.
+        // `(resource (STEPS) reset)`: dependencies on((d, d2), ..), fetch started for d * 1000 + d2; an even write goes to d (the
+        // query) and a helper effect on(d, ..) then resets d2 (the page) to 0; an odd write goes to d2.
+        // Both print a field `fetches=v0,v1,...`: the dependency values the fetches were started for, in start order.
+        let clamp = sx.list().len() > 2 && sx.list()[2].atom() == "clamp";
+        let reset = sx.list().len() > 2 && sx.list()[2].atom() == "reset";
         let mut dep2 = None;
         let root = create_root(|| {
             let d = create_signal(0i64);
             let d2 = create_signal(0i64);
             dep = Some(d);
             dep2 = Some(d2);
+            if clamp {
+                create_effect(move || {
+                    if d.get() > 50 {
+                        d.set(50);
+                    }
+                });
+            }
             let mk = move || {
                 let fetch = move || {
-                    let v = d.get() + d2.get();
+                    let v = if reset { d.get() * 1000 + d2.get() } else { d.get() + d2.get() };
                     let (tx, rx) = oneshot::channel::<i64>();
                     s2.borrow_mut().push(Some(tx));
                     st2.borrow_mut().push(v);
@@ -168,7 +182,7 @@ fn run_resource(sx: &sexpr::Sx) -> Vec<String> {
                         r
                     }
                 };
-                if two {
+                if two || reset {
                     create_isomorphic_resource(on((d, d2), fetch))
                 } else {
                     create_isomorphic_resource(on(d, fetch))
@@ -200,6 +214,9 @@ fn run_resource(sx: &sexpr::Sx) -> Vec<String> {
             }
         });
         let (dep, dep2, res) = (dep.unwrap(), dep2.unwrap(), res.unwrap());
+        if reset {
+            root.run_in(|| create_effect(on(dep, move || dep2.set(0))));
+        }
         // `(resource (STEPS) fb)`: a feedback edge from the resource's value to its dependency, behind a selector: when the
         // value ends in 7 the dependency is moved on to value + 1 (following a redirect, loading the next page)
         if sx.list().len() > 2 && sx.list()[2].atom() == "fb" {
@@ -226,6 +243,9 @@ fn run_resource(sx: &sexpr::Sx) -> Vec<String> {
                 l as u8,
                 started.borrow().len()
             );
+            if clamp || reset {
+                line.push_str(&format!(" fetches={}", started.borrow().iter().map(|v| v.to_string()).collect::<Vec<_>>().join(",")));
+            }
             if let Some(b) = boundary {
                 if b.is_alive() {
                     line.push_str(&format!(" sus={}", b.get_untracked() as u8));
@@ -243,7 +263,13 @@ fn run_resource(sx: &sexpr::Sx) -> Vec<String> {
                 "write" => {
                     let v: i64 = st[1].num();
                     root.run_in(|| {
-                        if two && v.rem_euclid(2) == 1 {
+                        if reset {
+                            if v.rem_euclid(2) == 1 {
+                                dep2.set(v)
+                            } else {
+                                dep.set(v)
+                            }
+                        } else if two && v.rem_euclid(2) == 1 {
                             dep2.set(v - dep.get_untracked())
                         } else {
                             dep.set(v - dep2.get_untracked())
